@@ -243,14 +243,23 @@ def directive_accounting(ctx, case, o):
     for led in o["edits"]:
         if led["del"]:
             ranges.setdefault(led["block"], []).append((led["off"], led["off"] + led["del"]))
-    # a procedure that lies wholly inside a deleted range goes as a whole (startproc, endproc and all): not accounted here
-    for b, k, ds in o["before"]["aux"]["cfi"]:
-        for s_, e_ in ranges.get(b, []):
-            if s_ <= k <= e_ and any(d[0] == ".cfi_startproc" for d in ds):
-                if any(b2 == b and s_ <= k2 <= e_ and any(d[0] == ".cfi_endproc" for d in ds2) and (k2, 1) > (k, 0)
-                       for b2, k2, ds2 in o["before"]["aux"]["cfi"]):
-                    ctx.count("directive-accounting:skipped-whole-procedure")
-                    return
+    # a procedure that lies wholly inside a deleted stretch (adjacent ranges, also of adjacent blocks, count as one)
+    # goes as a whole - startproc, endproc and all: not accounted here
+    ivs = {i["id"]: i for i in o["before"]["intervals"]}
+    addr = {b_["id"]: (ivs[b_["bi"]]["sect"], (ivs[b_["bi"]]["addr"] or 0) + b_["off"]) for b_ in o["before"]["blocks"] if b_["bi"] in ivs}
+    stretches = []
+    for (sect, lo, hi) in sorted((addr[b][0], addr[b][1] + s_, addr[b][1] + e_) for b, rs in ranges.items() if b in addr for s_, e_ in rs):
+        if stretches and stretches[-1][0] == sect and lo <= stretches[-1][2]:
+            stretches[-1][2] = max(stretches[-1][2], hi)
+        else:
+            stretches.append([sect, lo, hi])
+    marks = [(addr[b][0], addr[b][1] + k, d[0]) for b, k, ds in o["before"]["aux"]["cfi"] if b in addr for d in ds if d[0] in (".cfi_startproc", ".cfi_endproc")]
+    for sect, lo, hi in stretches:
+        starts = [p_ for s_, p_, n in marks if s_ == sect and n == ".cfi_startproc" and lo <= p_ <= hi]
+        ends = [p_ for s_, p_, n in marks if s_ == sect and n == ".cfi_endproc" and lo <= p_ <= hi]
+        if any(e_ >= s_ for s_ in starts for e_ in ends):
+            ctx.count("directive-accounting:skipped-whole-procedure")
+            return
     want = ordinary(o["before"], lambda b, k: any(s < k <= e for s, e in ranges.get(b, [])))
     got = ordinary(o["after"])
     ctx.count("directive-accounting")
